@@ -1,3 +1,5 @@
 //! Positive controls: tiny functions exhibiting each forbidden shape. Every rule whose expected
 //! count on /repo is zero must report its control here on every run.
 #![allow(dead_code, unused)]
+pub mod errflow;
+pub mod hashorder;
